@@ -11,5 +11,5 @@ assert t.count(old)>=1,("not found",old)
 t=t.replace(old,new,1)
 open(p,'w').write(t)
 PY
-cd /verif && YQV_REPO=/var/tmp/yqm ./check $PROP 2>&1 | grep -E "^(VIOLATION|UNDECIDED|property|KNOWN|obligation failed)" | cut -c1-250
+cd /verif && YQV_EVIDENCE=/var/tmp/yq-scratch-evidence YQV_REPLAYS=/var/tmp/yq-scratch-replays YQV_REPO=/var/tmp/yqm ./check $PROP 2>&1 | grep -E "^(VIOLATION|UNDECIDED|property|KNOWN|obligation failed)" | cut -c1-250
 echo "rc=$?"
